@@ -37,6 +37,12 @@ func main() {
 						f := prog.MethodValue(ms.At(i))
 						if f != nil && t.Name()+"."+f.Name() == name {
 							f.WriteTo(os.Stdout)
+							for _, af := range f.AnonFuncs {
+								af.WriteTo(os.Stdout)
+								for _, af2 := range af.AnonFuncs {
+									af2.WriteTo(os.Stdout)
+								}
+							}
 						}
 					}
 				}
